@@ -130,6 +130,7 @@ class Scripted(object):
             self.scripts[op] = deque(items)
         self.log = []          # [(op, detail, outcome)]
         self.calls = {}        # op -> count
+        self.raised = []       # exception objects raised by the double, in order
 
     def script(self, op, items):
         self.scripts.setdefault(op, deque()).extend(items)
@@ -155,6 +156,7 @@ class Scripted(object):
         if is_exc(item):
             exc = make_exc(item)
             self._record(op, detail, item_name(item))
+            self.raised.append(exc)
             raise exc
         if item[0] == "ret":
             self._record(op, detail, item[1])
@@ -469,6 +471,55 @@ class FakeUdpHandler(Scripted):
             self._record("receive", None, (item[1], item[2]))
             return (item[1], item[2])
         return self._finish("receive", None, item)
+
+
+# --------------------------------------------------------------------------
+# the real transport classes standing on doubles
+
+NEAR = ("127.0.0.1", 5000)
+PEER = ("127.0.0.1", 6000)
+
+
+def clock(stamp=0.0):
+    """virtual time source with the Store ``.stamp`` protocol (ioflo's own Stamper)"""
+    from ioflo.aid.timing import Stamper
+    return Stamper(stamp=stamp)
+
+
+def client_on_double(tls=False, wlog=None, store=None, fake=None, connect=True, **kw):
+    """A real Client / ClientTls whose ``.cs`` is a FakeSocket.  Returns (client, fake)."""
+    from ioflo.aio.tcp import clienting
+    blocks = WANT_READ if tls else WOULDBLOCK
+    if fake is None:
+        fake = FakeSocket(sockname=NEAR, peername=PEER, defaults={"recv": blocks})
+    args = dict(ha=fake.peername, wlog=wlog, store=store if store is not None else clock())
+    args.update(kw)
+    if tls:
+        obj = clienting.ClientTls(context=FakeContext(), **args)
+    else:
+        obj = clienting.Client(**args)
+    obj.cs = fake                      # documented attribute: the connection socket
+    if connect and not obj.connect():
+        raise RuntimeError("double did not connect")
+    return obj, fake
+
+
+def incomer_on_double(tls=False, wlog=None, store=None, fake=None, handshake=True, **kw):
+    """A real Incomer / IncomerTls constructed with ``cs=`` FakeSocket.  Returns (incomer, fake)."""
+    from ioflo.aio.tcp import serving
+    blocks = WANT_READ if tls else WOULDBLOCK
+    if fake is None:
+        fake = FakeSocket(sockname=NEAR, peername=PEER, defaults={"recv": blocks})
+    args = dict(ha=fake.sockname, bs=8096, ca=fake.peername, cs=fake, wlog=wlog,
+                store=store if store is not None else clock())
+    args.update(kw)
+    if tls:
+        obj = serving.IncomerTls(context=FakeContext(), **args)
+        if handshake and not obj.serviceHandshake():
+            raise RuntimeError("double did not handshake")
+    else:
+        obj = serving.Incomer(**args)
+    return obj, fake
 
 
 # --------------------------------------------------------------------------
